@@ -227,6 +227,28 @@ fn const_j<'tcx>(
             }
         }
     }
+    // `&CONST` operands (promoted or not): print the pointee when it is plain memory
+    if !c.const_.has_non_region_param_like() {
+        if let Ok(ConstValue::Scalar(interpret::Scalar::Ptr(ptr, _))) =
+            c.const_.eval(tcx, typing_env, c.span)
+        {
+            let (prov, offset) = ptr.into_raw_parts();
+            let alloc_id = prov.alloc_id();
+            if let (Some(inner), Some(interpret::GlobalAlloc::Memory(a))) =
+                (ty.builtin_deref(true), tcx.try_get_global_alloc(alloc_id))
+            {
+                use rustc_middle::ty::TypeVisitableExt;
+                if a.inner().provenance().ptrs().is_empty()
+                    && a.inner().len() <= 256
+                    && !inner.has_non_region_param()
+                    && inner.is_sized(tcx, typing_env)
+                {
+                    let v = ConstValue::Indirect { alloc_id, offset };
+                    extra.push(("pointee", J::s(format!("{}", Const::Val(v, inner)))));
+                }
+            }
+        }
+    }
     if let Some(sd) = c.check_static_ptr(tcx) {
         extra.push(("static", J::s(cx.uid(sd))));
         extra.push(("static_name", J::s(cx.path(sd))));
